@@ -19,23 +19,28 @@ META = {
                  "writes and reads (incl. an edited / malformed stream and third-party files) + independent Python readers/writers as oracle",
     "level_text": "Machine-checked Coq theorems, for ALL meshes (unbounded vertex/element/attribute lists), about an executable model of "
                   "mouette/mesh/io/*.py and the save/load plumbing of mesh.py whose constants, tables and decision expressions are regenerated "
-                  "from /repo on every run. FULL: round trip parse_f(print_f m) = vocab_f m for xyz, obj (both edge-export switches, "
-                  "ignore_elements), off (faces of >=3 vertices), tet, Medit .mesh (per arity class: triangles, quads, hexahedra, tetrahedra; "
-                  "hard-edge-only export), geogram_ascii (vertices, edges, faces of any arity via facet_ptr, cells of any arity via cell_ptr, "
-                  "cell adjacency of tetrahedral meshes, attributes of the five types on the seven containers: name, type, arity and, read "
-                  "densely, values); interoperability both ways with independent reference codecs (free-form token-stream readers) for xyz, "
-                  "obj, off, tet, Medit; kinds a format cannot express are absent; the loaded class is the one the content implies. "
-                  "PARTIAL: geogram_ascii interoperability (proved: an independent count-driven reader finds exactly the attribute sets and "
-                  "attributes mouette wrote with all their values; the converse - files of an independent geogram writer and a file written "
-                  "by geogram itself - is compared per run with the model's parser); STL (binary32 triangle soup of triangle meshes through a "
-                  "reader of the binary layout; the importer is the third-party stl_reader, only compared per run; quads are written as two "
-                  "triangles). REFUTED (known findings, witnesses replayed on every run): OBJ relative (negative) indices are misread; Medit "
-                  "sections whose count is on the keyword line are skipped; Medit Dimension 2 files get the reference label as z. The optional "
-                  "parts an independent writer may emit (OFF face colours / comments / counts on the OFF line, OBJ o g s usemtl mtllib vt vn "
-                  "statements, v/vt/vn index forms and polylines, Medit optional sections / labels / indentation, xyz count line and extra "
-                  "columns, blanks) are generated on every run, loaded by mouette, judged by the oracle and compared with the model's parser. "
-                  "Bit-exactness of text coordinates rests on the hypothesis float('{}'.format(x)) == x, tested on every run (10^5 doubles "
-                  "in the thorough tier).",
+                  "from /repo on every run. PROVED (guards are visible premises): round trip parse_f(print_f m) = vocab_f m for xyz and obj "
+                  "(meshes without normals/uv_coords attributes; both edge-export switches, ignore_elements), off (faces of >=3 vertices), tet, "
+                  "Medit .mesh (per arity class; hard-edge-only export), geogram_ascii (vertices, edges, faces of any arity via facet_ptr, cells "
+                  "of any arity via cell_ptr, cell adjacency of tetrahedral meshes, attributes of the five types on the seven containers incl. "
+                  "string values and names with any characters, which are percent-encoded; guard geo_ok: names distinct and not reserved by the "
+                  "format); attribute name/type/arity and dense values (corollary; a scalar equal to the default reads back as the default); "
+                  "interoperability both ways with independent reference codecs for xyz, obj, off, tet, Medit; extension dispatch; "
+                  "ignore_elements; kinds a format cannot express are absent (corollary); the loaded class is the one the content implies. "
+                  "PARTIAL: geogram_ascii interoperability (proved: an independent count-driven reader cuts mouette's file exactly into the "
+                  "attribute sets / attributes written, i.e. declared counts are consistent; the converse, and a file written by geogram "
+                  "itself, are compared per run with the model's parser); STL (binary32 triangle soup of triangle meshes through a reader of "
+                  "the binary layout; the importer is the third-party stl_reader, compared per run). REFUTED, each a narrowly keyed known "
+                  "finding whose witness is replayed on every run: OBJ relative (negative) indices are misread; Medit sections whose count is "
+                  "on the keyword line are skipped; Medit Dimension 2 files get the reference label as z; a geogram user attribute named like "
+                  "a name the format reserves (e.g. 'point') is read as geometry; STL writes a quad as two triangles instead of leaving it "
+                  "out. TESTED only (kernel-checked correspondence + independent Python oracle, per run): that mouette's save/load are the "
+                  "model's print_f/parse_f (files token for token, floats by bit pattern; a float the file spells as an integer is accepted); "
+                  "the PREPARED object load(path) returns, element-wise (faces incl. those completed from cells, edges as a set); save does "
+                  "not modify the mesh; the optional parts an independent writer may emit (OFF colours/comments/inline counts, OBJ o g s "
+                  "usemtl mtllib vt vn, v/vt/vn forms, polylines, Medit optional sections/labels/indentation, xyz count line/extra columns); "
+                  "an edited/malformed stream; third-party files; float('{}'.format(x)) == x and urllib quote/unquote (hypotheses of the "
+                  "theorems; 10^5 doubles in the thorough tier).",
     "level_note": "Trusted: Coq kernel + vm_compute; the fail-closed translator vf/translate/c04.py (its output is exercised by the "
                   "correspondence); the harness (generators, tokeniser, driver canonicalisation: floats as bit patterns, a float text is "
                   "identified with the double it denotes); CPython/numpy float and complex text round trip (section hypotheses rf_pf, rc_pc); "
@@ -129,11 +134,16 @@ def gen_mesh(rng):
     if kind == "tethex":
         rng.shuffle(C)
     # dedupe exact duplicates of edges (prepare keeps them, fine) - nothing to do
-    return {"kind": kind, "style": style, "V": V, "E": E, "F": F, "C": C}
+    out = {"kind": kind, "style": style, "V": V, "E": E, "F": F, "C": C}
+    if F and rng.random() < 0.3:
+        out["hard_set"] = [rng.randrange(0, 3 * len(F) + len(E) + 1) for _ in range(rng.randint(1, 3))]   # some completed edges flagged hard too
+    return out
 
 
 ATYPES = ["Bool", "Int", "Float", "Complex", "String"]
-WORDS = ["a", "b", "foo", "bar", "hello", "x_y", "Zed", "w1", "north", "alpha-beta"]
+WORDS = ["a", "b", "foo", "bar", "hello", "x_y", "Zed", "w1", "north", "alpha-beta",
+         "a#b", " lead", "trail ", "two words", "x\ny", "", "[ATTR]", "[HEAD]", "say \"hi\"", "100%", "%41", "tab\there", "12", "-3.5", "(1+2j)", "#"]
+NAME_EXTRA = ["na#me", "my attr", " padded ", "quo\"te", "line\nbreak", "[ATTS]", "per%cent", "GEO::Mesh::mine", "#x"]
 
 
 def gen_aval(rng, ty):
@@ -156,7 +166,10 @@ def gen_attrs(rng, mesh):
         if rng.random() < 0.55:
             continue
         lst = []
-        for name in rng.sample(names, rng.choice([1, 1, 2])):
+        picked = rng.sample(names, rng.choice([1, 1, 2]))
+        if rng.random() < 0.35:
+            picked.append(rng.choice(NAME_EXTRA))
+        for name in picked:
             ty = rng.choice(ATYPES)
             ar = rng.choice([1, 1, 1, 2, 3])
             dense = rng.random() < 0.3
@@ -250,7 +263,7 @@ def text_of_lines(lines):
 
 
 def printable(s):
-    return all(32 <= ord(c) < 127 for c in s)
+    return all(32 <= ord(c) < 127 or c in "\n\t" for c in s)
 
 
 # ---------------------------------------------------------------------- Gallina encoders
@@ -471,6 +484,52 @@ def implied_class(r):
     return CLASS[3 if r["C"] else 2 if r["F"] else 1 if r["E"] else 0]
 
 
+TET_FACES = [(1, 3, 2), (0, 2, 3), (3, 1, 0), (0, 1, 2)]
+HEX_FACES = [(0, 1, 2, 3), (4, 5, 6, 7), (0, 3, 7, 4), (0, 1, 5, 4), (1, 2, 6, 5), (2, 3, 7, 6)]
+
+
+def expected_prepared(want, cfg):
+    """The finished object load(path) must hand back for file content `want`: same vertices, faces (plus the faces of the cells
+    that are not listed, in cell order), cells; as edges, the valid listed ones plus the sides of the faces (compared as a set)."""
+    V, C = want["V"], [list(c) for c in want["C"]]
+    F = [list(f) for f in want["F"]]
+    if cfg.get("complete_faces_from_cells", True):
+        seen = {tuple(sorted(f)) for f in F}
+        for c in C:
+            tab = TET_FACES if len(c) == 4 else HEX_FACES if len(c) == 8 else []
+            for t in tab:
+                f = [c[i] for i in t]
+                if tuple(sorted(f)) not in seen:
+                    seen.add(tuple(sorted(f)))
+                    F.append(f)
+    n = len(V)
+    E = {tuple(sorted(e)) for e in want["E"] if len(e) == 2 and e[0] != e[1] and 0 <= e[0] < n and 0 <= e[1] < n}
+    if cfg.get("complete_edges_from_faces", True):
+        for f in F:
+            for i in range(len(f)):
+                E.add(tuple(sorted((f[i], f[(i + 1) % len(f)]))))
+    return {"V": V, "F": F, "C": C, "E": sorted(list(e) for e in E)}
+
+
+def oracle_prepared(ld, want, cfg):
+    """element-wise comparison of the PREPARED object mouette.mesh.load(path) returns with the content of the file"""
+    lo = ld.get("loaded")
+    if lo is None:
+        return None
+    exp = expected_prepared(want, cfg)
+    if any(x < 0 or x >= len(exp["V"]) for k in "FC" for el in exp[k] for x in el):
+        return None   # elements pointing outside the vertices: prepare is not defined on them
+    if lo["V"] != exp["V"]:
+        return "the loaded mesh has vertices %s, the file holds %s" % (json.dumps(lo["V"])[:200], json.dumps(exp["V"])[:200])
+    for k, what in (("F", "faces"), ("C", "cells")):
+        if (lo[k] or []) != exp[k]:
+            return "the loaded mesh has %s %s, expected %s" % (what, json.dumps(lo[k])[:200], json.dumps(exp[k])[:200])
+    got_e = sorted(sorted(e) for e in (lo["E"] or []))
+    if sorted(map(list, {tuple(e) for e in got_e})) != exp["E"]:
+        return "the loaded mesh has the edge set %s, expected %s" % (json.dumps(got_e)[:200], json.dumps(exp["E"])[:200])
+    return None
+
+
 def oracle_save_load(fmt, job, res):
     """None, or a description of how this save -> load violates C04."""
     mi = res["mesh_in"]
@@ -482,7 +541,7 @@ def oracle_save_load(fmt, job, res):
     if "save_exc" in res:
         return "save raised %s: %s" % (res["save_exc"]["exc"], res["save_exc"]["msg"])
     if fmt == "geogram_ascii" and mi.get("FC") is not None and mi["FC"] != [x for f in (mi["F"] or []) for x in f]:
-        return None  # face corners not in step with the faces: outside the model
+        return "the face corners of the prepared mesh are not the concatenation of its faces"
     ld = res.get("load")
     if ld is None:
         return None
@@ -501,7 +560,7 @@ def oracle_save_load(fmt, job, res):
         return "building the loaded mesh raised %s: %s" % (ld["class_exc"]["exc"], ld["class_exc"]["msg"])
     if ld["class"] != implied_class(want):
         return "loaded object is a %s, its content implies %s" % (ld["class"], implied_class(want))
-    return None
+    return oracle_prepared(ld, want, cfg)
 
 
 # ---------------------------------------------------------------------- malformed / variant stream for the importers
@@ -770,6 +829,19 @@ GEO_SETS = {"V": "GEO::Mesh::vertices", "E": "GEO::Mesh::edges", "F": "GEO::Mesh
 GEO_TYPES = {"Float": ("double", 8), "Int": ("int", 4), "Bool": ("bool", 1)}
 
 
+def pct_decode(t):
+    """%XX -> character (independent of urllib)"""
+    out, i = [], 0
+    while i < len(t):
+        if t[i] == "%" and i + 2 < len(t) + 0 and re.fullmatch(r"[0-9A-Fa-f]{2}", t[i + 1:i + 3] or ""):
+            out.append(chr(int(t[i + 1:i + 3], 16)))
+            i += 3
+        else:
+            out.append(t[i])
+            i += 1
+    return "".join(out)
+
+
 def geo_ref_write(mi, adj=None, comments=True):
     """text of a geogram_ascii file for the mesh (tetrahedral cells only), attributes of the types geogram knows"""
     out = []
@@ -788,7 +860,7 @@ def geo_ref_write(mi, adj=None, comments=True):
 
     def user(ck, n):
         for name, ty, ar, vals in (mi.get("attrs") or {}).get(ck, []):
-            if ty not in GEO_TYPES or len(vals) != n * ar:
+            if ty not in GEO_TYPES or len(vals) != n * ar or not re.fullmatch(r"[A-Za-z0-9_:.-]+", name) or name in GEO_RESERVED.get(ck, []):
                 continue
             tn, es = GEO_TYPES[ty]
             attr(GEO_SETS[ck], name, tn, es, ar, [text_of_tok(["f", v[1]]) if v[0] == "f" else str(int(v[1])) for v in vals])
@@ -845,7 +917,7 @@ def geo_ref_read(text):
         t = nxt()
         if len(t) < 2 or t[0] != '"' or t[-1] != '"':
             raise RefError("quoted string expected")
-        return t[1:-1]
+        return pct_decode(t[1:-1])
     try:
         sizes, attrs = {}, {}
         if nxt() != "[HEAD]" or q() != "GEOGRAM":
@@ -1077,7 +1149,7 @@ def oracle_load(fmt, ld, want):
         return "building the loaded mesh raised %s: %s" % (ld["class_exc"]["exc"], ld["class_exc"]["msg"])
     if "class" in ld and ld["class"] != implied_class(want):
         return "loads as a %s, its content implies %s" % (ld["class"], implied_class(want))
-    return None
+    return oracle_prepared(ld, want, {})
 
 
 # ---------------------------------------------------------------------- binary STL
@@ -1146,8 +1218,14 @@ def oracle_stl(job, res):
         if any(len(f) not in (3, 4) for f in F) and res["save_exc"]["exc"] == "ValueError":
             return None   # polygons are outside STL's vocabulary and are refused
         return "save raised %s: %s" % (res["save_exc"]["exc"], res["save_exc"]["msg"])
-    if any(len(f) != 3 for f in F) or not F:
-        return None       # only triangle meshes are claimed for STL
+    if not F:
+        return None
+    if any(len(f) == 4 for f in F):
+        ld = res.get("load") or {}
+        nf = len((ld.get("raw") or {}).get("F") or [])
+        if "raw" in ld and nf != sum(1 for f in F if len(f) == 3):
+            return "quad faces, which STL cannot express, are not left out: %d faces saved (%d quads), %d triangles loaded" % (len(F), sum(1 for f in F if len(f) == 4), nf)
+        return None
     ld = res.get("load")
     if ld is None:
         return None
@@ -1168,6 +1246,8 @@ def oracle_stl(job, res):
 # ---------------------------------------------------------------------- case building
 def save_job(mesh, fmt, cfg, ignore=None):
     j = {"k": "save", "fmt": fmt, "mesh": {k: mesh[k] for k in ("V", "E", "F", "C")}, "cfg": cfg}
+    if mesh.get("hard_set"):
+        j["mesh"]["hard_set"] = mesh["hard_set"]
     if mesh.get("attrs"):
         j["mesh"]["attrs"] = mesh["attrs"]
     if ignore is not None:
@@ -1206,6 +1286,19 @@ def obs_raw_term(ld, with_attrs=False):
     return "(Some %s)" % raw_term(ld["raw"], with_attrs=with_attrs), cls
 
 
+GEO_RESERVED = {"V": ["point"], "E": ["GEO::Mesh::edges::edge_vertex"], "F": ["GEO::Mesh::facets::facet_ptr"],
+                "FC": ["GEO::Mesh::facet_corners::corner_vertex", "GEO::Mesh::facet_corners::corner_adjacent_facet", "corner_adjacent_facet"],
+                "C": ["GEO::Mesh::cells::cell_ptr"], "CC": ["GEO::Mesh::cell_corners::corner_vertex"],
+                "CF": ["GEO::Mesh::cell_facets::adjacent_cell", "adjacent_cell", "opposite_cell"]}
+
+
+def reserved_names_used(job):
+    """user attributes of the job whose name the geogram format (or mouette's importer) gives a meaning of its own to"""
+    at = (job.get("mesh") or {}).get("attrs") or {}
+    return [(ck, a["name"]) for ck, al in at.items() for a in al
+            if a["name"] in GEO_RESERVED.get(ck, []) or a["name"] in ("GEO::Mesh::facets::facet_ptr", "GEO::Mesh::cells::cell_ptr")]
+
+
 def oracle_any(job, r):
     return oracle_stl(job, r) if job["fmt"] == "stl" else oracle_save_load(job["fmt"], job, r)
 
@@ -1213,8 +1306,13 @@ def oracle_any(job, r):
 def classify(job, r, msg):
     """failure class (matched against known_findings)"""
     mi = r.get("mesh_in") or {}
-    if job["fmt"] == "geogram_ascii" and msg.startswith("save raised") and any(len(c) != 4 for c in (mi.get("C") or [])):
-        return "geogram_ascii/non-tetrahedral-cells/save-raises"
+    if job["fmt"] == "stl" and msg.startswith("quad faces, which STL cannot express"):
+        return "stl/quad-faces/written-as-two-triangles"
+    if job["fmt"] == "geogram_ascii":
+        rs = reserved_names_used(job)
+        if rs and (any(nm in msg for _, nm in rs) or "differ after save/load" in msg or "raised AssertionError" in msg
+                   or "appear on" in msg or "is lost by save/load" in msg or msg.startswith("an independent reader finds")):
+            return "geogram_ascii/attribute-name/reserved-by-the-format"
     return "%s/%s" % (job["fmt"], re.sub(r"[^a-zA-Z ]", "", msg.split(":")[0])[:60].strip().replace(" ", "-"))
 
 
@@ -1280,6 +1378,21 @@ def run(ctx):
     if badf:
         ctx.violation("'{}'.format(x) does not read back as x: %s" % badf[0], {"floats": badf[:10]})
 
+    # ---- percent-encoding of string values / attribute names (hypotheses dec_enc_*, enc_*_safe of the geogram theorems)
+    from urllib.parse import quote, unquote
+    sfe = "!$&'()*+,-./:;<=>?@^_`{|}~"
+    texts = WORDS + NAME_EXTRA + ["".join(chr(ctx.rng.randrange(0, 128)) for _ in range(ctx.rng.randint(0, 12))) for _ in range(300 if quick else 5000)]
+    badq = []
+    for t in texts:
+        for safe in (sfe, sfe + " "):
+            e = quote(t, safe=safe)
+            if unquote(e) != t or '"' in e or "[" in e or "#" in e or "\n" in e or "\r" in e or e != e.strip() and safe == sfe or pct_decode(e) != t:
+                badq.append([t, e])
+    ctx.obligation("percent-encoding: unquote(quote(s)) == s and the encoded text has no double quote, #, [, line break (%d texts; hypotheses of "
+                   "C04_roundtrip_geogram)" % len(texts), "trusted-base-test", not badq, json.dumps(badq[:5]))
+    if badq:
+        ctx.violation("urllib quote/unquote do not behave as the geogram theorems assume: %s" % badq[0], {"texts": badq[:10]})
+
     # ---- cases
     meshes = []
     cdir = os.path.join(core.ROOT, "corpus", "C04")
@@ -1303,6 +1416,12 @@ def run(ctx):
             jobs.append(save_job(mm, fmt, m.get("cfg") or {}, m.get("ignore")))
         if m["F"] and "faces" not in (m.get("ignore") or []):
             jobs.append(save_job(m, "stl", m.get("cfg") or {}, m.get("ignore")))
+    # the witnesses of the known findings / _refuted theorems are replayed on every run
+    sqv = [[f2b(0.0), f2b(0.0), f2b(0.0)], [f2b(1.0), f2b(0.0), f2b(0.0)], [f2b(1.0), f2b(1.0), f2b(0.0)], [f2b(0.0), f2b(1.0), f2b(0.0)]]
+    jobs.append(save_job({"V": sqv, "E": [], "F": [[0, 1, 2, 3]], "C": []}, "stl", {}))
+    jobs.append(save_job({"V": sqv[:2], "E": [], "F": [], "C": [],
+                          "attrs": {"V": [{"name": "point", "type": "Float", "arity": 3, "dense": False, "vals": [[0, [f2b(5.0), f2b(6.0), f2b(7.0)]]]}]}},
+                         "geogram_ascii", {}))
     ctx.log("floats done; running %d save/load jobs" % len(jobs))
     res = run_jobs(jobs)
     ctx.log("implementation runs done")
@@ -1311,14 +1430,22 @@ def run(ctx):
     lv_dbg = []
     fails_files = []
     fails_load = []
+    skipped = {"n": 0, "total": 0}
+
+    def skip(reason):
+        skipped["n"] += 1
+        ctx.count("SKIPPED by the harness: " + reason)
     save_terms, load_terms, rt_terms, stl_terms = [], [], [], []
     save_idx, load_idx, stl_idx = [], [], []
     fails = []
     for idx, (job, r) in enumerate(zip(jobs, res)):
         fmt = job["fmt"]
+        skipped["total"] += 1
         if "driver_exc" in r or "build_exc" in r:
-            ctx.count("driver/build exception")
+            skip("driver / build exception")
             ctx.notes.append("case %d: %s" % (idx, json.dumps(r)[:200]))
+            if "driver_exc" in r:   # the driver died or timed out while saving / observing: that is a verdict, not a skip
+                fails.append((idx, "save or the observation of the mesh after save failed: %s" % json.dumps(r["driver_exc"])[:200]))
             continue
         mi = r["mesh_in"]
         ctx.count("fmt " + fmt)
@@ -1332,6 +1459,7 @@ def run(ctx):
             if msg:
                 fails.append((idx, msg))
             if not mesh_modelled(mi):
+                skip("mesh outside the model's input type")
                 continue
             if "file" in r:
                 data = bytes.fromhex(r["file"]["hex"])
@@ -1351,21 +1479,23 @@ def run(ctx):
         if msg:
             fails.append((idx, msg))
         if not mesh_modelled(mi):
-            ctx.count("outside model input type")
+            skip("mesh outside the model's input type")
             continue
         sw = sw_term(job.get("cfg") or {}, job.get("ignore"))
         geo = fmt == "geogram_ascii"
         if geo:
             mi = dict(mi, adj=r.get("adj"))
             if any(a[3][:1] == ["EXC"] or any(v[0] == "other" for v in a[3]) for al in (mi.get("attrs") or {}).values() for a in al):
-                ctx.count("attribute outside the model")
+                skip("attribute value outside the model")
                 continue
             if not all(printable(a[0]) and all(v[0] != "s" or printable(v[1]) for v in a[3]) for al in mi["attrs"].values() for a in al):
+                skip("non-ASCII attribute text")
                 continue
         mt = mesh_term(mi, with_attrs=geo)
         if "file" in r:
             toks = tokenize_geogram(r["file"]["text"]) if geo else tokenize(r["file"]["text"], fmt)
             if not printable(r["file"]["text"].replace("\n", " ")):
+                skip("non-ASCII file")
                 continue
             save_terms.append("(%s, %s, %s, Some %s)" % (FMT_COQ[fmt], sw, mt, lines_term(toks)))
             save_idx.append(idx)
@@ -1375,10 +1505,16 @@ def run(ctx):
                 if ot is not None:
                     load_terms.append("(%s, %s, %s, %s)" % (FMT_COQ[fmt], lines_term(toks), ot, ct))
                     load_idx.append(idx)
+                else:   # elements that are not integers / values of a foreign type: the importer produced something outside the model
+                    skip("loaded data not encodable")
+                    fails.append((idx, "the loaded data holds elements that are not integers or values of a foreign type: %s" % json.dumps(ld.get("raw"))[:200]))
         else:
             save_terms.append("(%s, %s, %s, None)" % (FMT_COQ[fmt], sw, mt))
             save_idx.append(idx)
-        rt_terms.append("(%s, %s, %s)" % (FMT_COQ[fmt], sw, mt))
+        if geo and reserved_names_used(job):
+            ctx.count("model round-trip test not emitted: attribute name outside geo_ok (reserved by the format)")
+        else:
+            rt_terms.append("(%s, %s, %s)" % (FMT_COQ[fmt], sw, mt))
 
     # ---- interoperability: independent reader on mouette's files, mouette's importers on the independent writer's files
     rr_terms, rw_terms, rw_idx, rw_jobs = [], [], [], []
@@ -1414,6 +1550,15 @@ def run(ctx):
                 seen_fmt_kind.add((fmt, label.split(" ")[0]))
                 var_jobs.append({"k": "load", "fmt": fmt, "text": text})
                 var_meta.append((fmt, label, want, kf))
+    for fmt_, label_, text_, want_, kf_ in (
+            ("obj", "witness: relative (negative) indices", "v 0.0 0.0 0.0\nv 1.0 0.0 0.0\nv 0.0 1.0 0.0\nf -3 -2 -1\n",
+             {"V": sqv[:2] + [sqv[3]], "E": [], "F": [[0, 1, 2]], "C": []}, "obj/relative-indices"),
+            ("mesh", "witness: counts on the keyword lines", "MeshVersionFormatted 2\nDimension 3\nVertices 1\n0.0 0.0 0.0 0\nEnd\n",
+             {"V": [sqv[0]], "E": [], "F": [], "C": []}, "mesh/count-on-keyword-line"),
+            ("mesh", "witness: two-dimensional file", "MeshVersionFormatted 2\nDimension 2\nVertices\n1\n0.0 0.0 7\nEnd\n",
+             {"V": [sqv[0]], "E": [], "F": [], "C": []}, "mesh/dimension-2")):
+        var_jobs.append({"k": "load", "fmt": fmt_, "text": text_})
+        var_meta.append((fmt_, label_, want_, kf_))
     var_res = run_jobs(var_jobs)
     var_terms = []
     for (fmt, label, want, kf), j2, r2 in zip(var_meta, var_jobs, var_res):
@@ -1459,7 +1604,8 @@ def run(ctx):
             fails.append((idx, "a geogram_ascii file written by an independent writer loads as %s instead of %s"
                           % (json.dumps({k: ld["raw"][k] for k in "VEFC"})[:200], json.dumps(want)[:200])))
         else:
-            mi2 = dict(mi, attrs={ck: [a for a in al if a[1] in GEO_TYPES and (ck != "CF" or res[idx].get("adj") is not None)]
+            mi2 = dict(mi, attrs={ck: [a for a in al if a[1] in GEO_TYPES and re.fullmatch(r"[A-Za-z0-9_:.-]+", a[0]) and a[0] not in GEO_RESERVED.get(ck, [])
+                                       and (ck != "CF" or res[idx].get("adj") is not None)]
                                   for ck, al in (mi.get("attrs") or {}).items()})
             msg = oracle_geogram_attrs(mi2, res[idx].get("adj"), ld["raw"], None)
             if msg:
@@ -1551,8 +1697,20 @@ def run(ctx):
             lv_dbg.append((fmt, kind, L2, ld))
     extra_batches.append(("loadvar", lv_terms, "check_load", "(fmt * list zline * option zraw * option (option string))"))
 
-    ctx.obligation("oracle: every save -> load of the implementation is lossless within the format's vocabulary and of the implied class",
-                   "oracle-on-implementation", True, "%d failing cases" % len(fails))
+    n_unknown = 0
+    for idx, msg in fails:
+        if not ctx.known(classify(jobs[idx], res[idx], msg)):
+            n_unknown += 1
+    for fmt_, label_, j2_, want_, msg_, kf_ in fails_load:
+        if not (kf_ and ctx.known(kf_)):
+            n_unknown += 1
+    n_unknown += len(fails_files)
+    ctx.obligation("oracle: every save -> load, every file of an independent writer and every third-party file is handled as the property says "
+                   "(failures outside the listed known findings: %d; inside: %d)" % (n_unknown, len(fails) + len(fails_load) - n_unknown + len(fails_files)),
+                   "oracle-on-implementation", n_unknown == 0, "%d failing cases, %d of unknown class" % (len(fails) + len(fails_load) + len(fails_files), n_unknown))
+    frac = skipped["n"] / max(1, skipped["total"])
+    ctx.obligation("harness: %d of %d save/load cases skipped (%.1f%%), at most 5%% allowed; cases explored > 0" % (skipped["n"], skipped["total"], 100 * frac),
+                   "harness", frac <= 0.05 and ctx.evaluations > 0, "skips by reason are in input_distribution under 'SKIPPED by the harness'")
     ctx.log("terms built")
     bad_s = bad_l = bad_r = bad_t = []
     bads = {}
@@ -1597,22 +1755,28 @@ def run(ctx):
     for msg in fails_files:
         ctx.violation("file written by another program: " + msg, {"file": msg}, key="thirdparty/" + msg.split(":")[0])
     reported = set()
-    for idx, msg in fails[:100]:
+    keyed = [(classify(jobs[idx], res[idx], msg), idx, msg) for idx, msg in fails]      # every failing case is classified
+    keyed.sort(key=lambda t: (ctx.known(t[0]) is not None, len(json.dumps(jobs[t[1]]["mesh"]))))   # unknown classes first, small inputs first
+    n_shrunk = 0
+    for key, idx, msg in keyed:
         job = jobs[idx]
-        key = classify(job, res[idx], msg)
         if key in reported:
             continue
         reported.add(key)
         if ctx.known(key):
             ctx.report_known(key, ctx.known(key)["what"])
             continue
+        n_shrunk += 1
+        if n_shrunk > 8:
+            ctx.violation("%s: %s" % (job["fmt"], msg), {"job": job, "observed": res[idx], "class": key}, key=key)
+            continue
 
         def still(mm, job=job):
-            jj = dict(job, mesh={k: mm[k] for k in ("V", "E", "F", "C")})
+            jj = dict(job, mesh=dict(job["mesh"], **{k: mm[k] for k in ("V", "E", "F", "C")}))
             rr = run_jobs([jj])[0]
             return "mesh_in" in rr and oracle_any(jj, rr) is not None
         small = shrink_mesh(job["mesh"], still)
-        jj = dict(job, mesh=small)
+        jj = dict(job, mesh=dict(job["mesh"], **{k: small[k] for k in ("V", "E", "F", "C")}))
         rr = run_jobs([jj])[0]
         m2 = oracle_any(jj, rr) if "mesh_in" in rr else None
         ctx.violation("%s: %s" % (job["fmt"], m2 or msg), {"job": jj if m2 else job, "observed": rr if m2 else res[idx], "class": key}, key=key)
